@@ -140,6 +140,27 @@ var (
 	}
 )
 
+// genHandshake: a complete opening handshake in which every list header still contains the right token
+// (so the upgrade is expected to succeed), written the way different clients write it.
+func genHandshake(r *rand.Rand) [][2]string {
+	conn := common.Pick(r, []string{"Upgrade", "upgrade", "keep-alive, Upgrade", "Upgrade, keep-alive", "keep-alive,upgrade", "UPGRADE"})
+	upg := common.Pick(r, []string{"websocket", "WebSocket", "WEBSOCKET"})
+	lines := [][2]string{{common.Pick(r, names["Connection"]), conn}, {common.Pick(r, names["Upgrade"]), upg},
+		{"Sec-WebSocket-Version", "13"}, {"Sec-WebSocket-Key", "dGhlIHNhbXBsZSBub25jZQ=="}}
+	switch r.Intn(4) {
+	case 0:
+		lines = append(lines, [2]string{common.Pick(r, names["Sec-WebSocket-Protocol"]), common.Pick(r, protoVals)})
+	case 1:
+		lines = append(lines, [2]string{"Sec-WebSocket-Protocol", common.Pick(r, []string{"grpc-websockets", "foo, grpc-websockets", "grpc-websockets,foo"})})
+	case 2:
+		lines = append(lines, [2]string{"Sec-WebSocket-Protocol", "foo"}, [2]string{"Sec-WebSocket-Protocol", "grpc-websockets"})
+	}
+	if r.Intn(4) == 0 {
+		lines = append(lines, [2]string{"Content-Type", common.Pick(r, ctVals)})
+	}
+	return lines
+}
+
 func genLines(r *rand.Rand) [][2]string {
 	var lines [][2]string
 	add := func(name string, pool []string, pNone, pMulti int) {
@@ -241,7 +262,11 @@ func (Area) Gen(r *rand.Rand, tier string, emit func(string)) {
 		if r.Intn(2) == 0 {
 			q = genQuery(r, "")
 		}
-		disp(method, q, genLines(r))
+		if method == "GET" && r.Intn(3) == 0 {
+			disp(method, q, genHandshake(r))
+		} else {
+			disp(method, q, genLines(r))
+		}
 	}
 	mdq := func(param, q string) { emit("mdq " + common.HexS(param) + " " + common.HexS(q)) }
 	mdq("", "")
